@@ -46,7 +46,7 @@ class C17(Lab):
         "NaN is outside the quantifier ('every other finite or infinite double')",
     )
     budgets = {"quick": 20000, "thorough": 2000000}
-    time_budget = {"quick": 60, "thorough": 1200}
+    time_budget = {"quick": 240, "thorough": 3600}
     exhaustive_note = "all 4096 12-bit ADC codes for each of the three sensors"
 
     def setup(self):
@@ -225,7 +225,7 @@ class C18(Lab):
         "the exact reference uses the decimal constants of the statement (0.3048, 147 us, 4.9 mV), which differ from the doubles in the code by less than the tolerance",
     )
     budgets = {"quick": 20000, "thorough": 2000000}
-    time_budget = {"quick": 60, "thorough": 1200}
+    time_budget = {"quick": 240, "thorough": 3600}
     exhaustive_note = "all 64 ordered triples of the built-in units x 9 fixed values"
 
     def setup(self):
